@@ -19,6 +19,7 @@ EXPLANATION = (
     "through the dynamic class of self (type(self) / self.__class__), never through a named class. R-ATOMIC + keyed "
     "store/delete discipline for the class-level and the instance-level component API (R-SIB: both agree).")
 EXPLANATION += (' get_class_component / get_component are three-case lookups without truthiness; a subclass constructor passes only None or its own None-defaulted parameter as tag.')
+EXPLANATION += (" An agent's own tag is written by Agent.__init__ only; the default-tag setter has no raising path; the private fields behind the documented `components` / `tag` views are located through the view properties.")
 ASSUMPTIONS = ["metaclass __init__ runs for every class statement (language fact)", "user hierarchies have no metaclass conflicts"]
 
 META = CORE + '_MetaAgent'
